@@ -253,6 +253,15 @@ func c14Loop(tp *Tape, env *Env) (*Plan, *Violation) {
 		l, _ := genMarkupLine(tp, fmt.Sprintf("SH%d", i), tp.Chance(30, "sharedmayfail"))
 		sb.WriteString(l + "\n")
 	}
+	nopt := 0
+	if tp.Chance(50, "loopoptions") {
+		// an option group of marked-up option lines (bodies empty): all its options go through the same parser
+		nopt = tp.Int(1, 3, "nloopopts")
+		for i := 0; i < nopt; i++ {
+			l, _ := genMarkupLine(tp, fmt.Sprintf("OPT%d", i), tp.Chance(10, "optmayfail"))
+			sb.WriteString("-> " + l + "\n")
+		}
+	}
 	sb.WriteString("<<set $n += 1>>\n")
 	for i := 0; i < nf; i++ {
 		l, _ := genMarkupLine(tp, fmt.Sprintf("P%d", i), tp.Chance(20, "fillermayfail"))
@@ -260,7 +269,7 @@ func c14Loop(tp *Tape, env *Env) (*Plan, *Violation) {
 	}
 	fmt.Fprintf(&sb, "<<if $n < %d>>\n    <<jump Hub>>\n<<endif>>\n===\n", rounds)
 	w := World{Readers: []ReaderSpec{{Text: sb.String()}}, Host: HostSpec{Storer: "default", Seed: "s1"}}
-	plan := &Plan{Harness: 1, Property: "C14", World: w, Extra: map[string]any{"loop": true, "shared": ns, "filler": nf, "rounds": rounds}}
+	plan := &Plan{Harness: 1, Property: "C14", World: w, Extra: map[string]any{"loop": true, "shared": ns, "filler": nf, "rounds": rounds, "loop_options": nopt}}
 	env.St.sample(map[string]any{"script": sb.String()})
 	journal(plan)
 	return plan, c14LoopExec(plan, env.St)
@@ -275,15 +284,46 @@ func c14LoopExec(plan *Plan, st *Stats) *Violation {
 		}
 		return nil
 	}
-	first := make([]string, ns)
+	nopt := extraInt(plan, "loop_options", 0)
+	per := ns + nf
+	if nopt > 0 {
+		per++
+	}
+	first := make([]string, ns+1)
 	attrs, distinctInputs := 0, 0
-	for step := 0; step < rounds*(ns+nf); step++ {
+	for step := 0; step < rounds*per; step++ {
 		r, el := h.NextEl(0)
+		idx, round := step%per, step/per
+		if nopt > 0 && idx == ns {
+			// the option group: every option's text and attributes, as in the first round
+			c := "error"
+			if r.Kind == rOptions {
+				if len(el.Options) != nopt {
+					return nil
+				}
+				var all []parseCanon
+				for _, o := range el.Options {
+					all = append(all, parseCanon{Text: o.Line.Text, Attrs: o.Line.Attributes})
+					attrs += len(o.Line.Attributes)
+				}
+				c = canonJSON(all)
+			} else if r.Kind != rError {
+				return nil
+			}
+			if round == 1 && st != nil && c != "error" {
+				st.probe("marked_up_option_group_shown_again")
+			}
+			if round == 0 {
+				first[ns] = c
+			} else if first[ns] != c {
+				return &Violation{Clause: "C14.runner-history", OpIndex: step, Expected: first[ns], Observed: c, Note: fmt.Sprintf("the option group shown in round %d differs from its first showing", round)}
+			}
+			continue
+		}
 		if r.Kind == rEnd || r.Kind == rPanic || r.Kind == rOptions {
 			return nil // the markup produced something that changes the flow: not comparable position by position
 		}
-		idx, round := step%(ns+nf), step/(ns+nf)
-		if idx >= ns {
+		if idx > ns || (nopt == 0 && idx >= ns) {
 			if r.Kind == rLine {
 				distinctInputs++
 			}
